@@ -111,22 +111,43 @@ Qed.
 
 (* ---- the points of this source tree ---------------------------------------------------------------- *)
 Definition all_points : list N :=
-  sim_run :: sim_run + 1 :: arm_points preamp_arms ++ arm_points channel_arms ++ arm_points pwb_arms.
+  sim_run :: sim_run + 1 :: 5000 :: 5001 ::
+  arm_points preamp_arms ++ arm_points channel_arms ++ arm_points pwb_arms
+  ++ arm_points preamp_doc_arms ++ arm_points channel_doc_arms ++ arm_points pwb_doc_arms.
 Definition probe_runs : list N := 0 :: all_points.
+
+Ltac in_app := solve [ assumption | apply in_or_app; left; in_app | apply in_or_app; right; in_app ].
+Ltac in_points := let x := fresh "x" in let Hx := fresh "Hx" in
+  unfold all_points; intros x Hx; do 4 right; in_app.
 
 Lemma wire_dispatch_rep run : wire_dispatch run = wire_dispatch (rep all_points run).
 Proof.
   unfold wire_dispatch.
-  rewrite <- (dispatch_rep preamp_arms all_points run).
-  2:{ unfold all_points; intros x Hx; right; right. apply in_or_app; left; exact Hx. }
-  rewrite <- (dispatch_rep channel_arms all_points run).
-  2:{ unfold all_points; intros x Hx; right; right. apply in_or_app; right. apply in_or_app; left; exact Hx. }
+  rewrite <- (dispatch_rep preamp_arms all_points run) by in_points.
+  rewrite <- (dispatch_rep channel_arms all_points run) by in_points.
   reflexivity.
 Qed.
 Lemma pwb_dispatch_rep run : pwb_dispatch run = pwb_dispatch (rep all_points run).
+Proof. unfold pwb_dispatch. apply dispatch_rep. in_points. Qed.
+
+Lemma rep_not_sim run : run <> sim_run -> rep all_points run <> sim_run.
+Proof. intros NE E. apply NE. eapply rep_eq_point; [|exact E]. unfold all_points. right; left; reflexivity. Qed.
+
+Lemma wire_req_rep run : run <> sim_run -> wire_dispatch_req run = wire_dispatch_req (rep all_points run).
 Proof.
-  unfold pwb_dispatch. apply dispatch_rep.
-  unfold all_points; intros x Hx; right; right. apply in_or_app; right. apply in_or_app; right. exact Hx.
+  intro NE. pose proof (rep_not_sim run NE) as NE'. unfold wire_dispatch_req, doc_run.
+  replace (run =? sim_run) with false by (symmetry; apply N.eqb_neq; exact NE).
+  replace (rep all_points run =? sim_run) with false by (symmetry; apply N.eqb_neq; exact NE').
+  rewrite <- (dispatch_rep preamp_doc_arms all_points run) by in_points.
+  rewrite <- (dispatch_rep channel_doc_arms all_points run) by in_points.
+  reflexivity.
+Qed.
+Lemma pwb_req_rep run : run <> sim_run -> pwb_dispatch_req run = pwb_dispatch_req (rep all_points run).
+Proof.
+  intro NE. pose proof (rep_not_sim run NE) as NE'. unfold pwb_dispatch_req, doc_run.
+  replace (run =? sim_run) with false by (symmetry; apply N.eqb_neq; exact NE).
+  replace (rep all_points run =? sim_run) with false by (symmetry; apply N.eqb_neq; exact NE').
+  apply dispatch_rep. in_points.
 Qed.
 
 (* a property of the dispatch result that holds at every probe run holds at every run *)
@@ -139,15 +160,42 @@ Proof.
   rewrite forallb_forall in F. apply F. apply rep_in.
 Qed.
 
+Fixpoint dedup {A} (eqb : A -> A -> bool) (l : list A) : list A :=
+  match l with [] => [] | x :: r => if existsb (eqb x) r then dedup eqb r else x :: dedup eqb r end.
+Lemma forallb_dedup {A} (eqb : A -> A -> bool) (P : A -> bool) l :
+  (forall x y, eqb x y = true -> x = y) ->
+  forallb P (dedup eqb l) = true -> forall x, In x l -> P x = true.
+Proof.
+  intros EQ. induction l as [|a r IH]; cbn [dedup]; intros F x I; [contradiction|].
+  destruct (existsb (eqb a) r) eqn:E.
+  - destruct I as [<-|I]; [|auto]. apply existsb_exists in E as (y & Iy & Ey). apply EQ in Ey. subst y. auto.
+  - cbn [forallb] in F. apply andb_true_iff in F as [F1 F2]. destruct I as [<-|I]; auto.
+Qed.
+
+Definition optN_eqb (a b : option N) : bool :=
+  match a, b with Some x, Some y => x =? y | None, None => true | _, _ => false end.
+Definition optNN_eqb (a b : option (N * N)) : bool :=
+  match a, b with Some (x, x'), Some (y, y') => (x =? y) && (x' =? y') | None, None => true | _, _ => false end.
+Lemma optN_eqb_eq a b : optN_eqb a b = true -> a = b.
+Proof. destruct a, b; cbn; try discriminate; auto. intro H. apply N.eqb_eq in H. congruence. Qed.
+Lemma optNN_eqb_eq a b : optNN_eqb a b = true -> a = b.
+Proof.
+  destruct a as [[x x']|], b as [[y y']|]; cbn; try discriminate; auto.
+  intro H. apply andb_true_iff in H as [H1 H2]. apply N.eqb_eq in H1, H2. congruence.
+Qed.
+
+
 (* ---- wire map -------------------------------------------------------------------------------------- *)
 Definition opt_check {A} (f : A -> bool) (o : option A) : bool := match o with Some a => f a | None => true end.
 
 Lemma wire_check_all : forall run id, wire_dispatch run = Some id -> wire_bij_check id = true.
 Proof.
-  assert (forallb (fun q => opt_check wire_bij_check (wire_dispatch q)) probe_runs = true) as F
-    by (vm_compute; reflexivity).
+  assert (forallb (opt_check wire_bij_check) (dedup optNN_eqb (map wire_dispatch probe_runs)) = true) as F
+    by (vm_cast_no_check (eq_refl true)).
   intros run id E. rewrite wire_dispatch_rep in E.
-  rewrite forallb_forall in F. specialize (F _ (rep_in all_points run)). rewrite E in F. exact F.
+  pose proof (forallb_dedup optNN_eqb _ _ optNN_eqb_eq F (wire_dispatch (rep all_points run))
+                (in_map wire_dispatch _ _ (rep_in all_points run))) as G.
+  rewrite E in G. exact G.
 Qed.
 
 Lemma In_wire_domain p b ch : In (b, ch) (wire_domain p) <-> In b (wire_boards p) /\ ch < 32.
@@ -191,10 +239,12 @@ Definition pad_check (t : N) : bool :=
 
 Lemma pad_check_all : forall run t, pwb_dispatch run = Some t -> pad_check t = true.
 Proof.
-  assert (forallb (fun q => opt_check pad_check (pwb_dispatch q)) probe_runs = true) as F
-    by (vm_compute; reflexivity).
+  assert (forallb (opt_check pad_check) (dedup optN_eqb (map pwb_dispatch probe_runs)) = true) as F
+    by (vm_cast_no_check (eq_refl true)).
   intros run t E. rewrite pwb_dispatch_rep in E.
-  rewrite forallb_forall in F. specialize (F _ (rep_in all_points run)). rewrite E in F. exact F.
+  pose proof (forallb_dedup optN_eqb _ _ optN_eqb_eq F (pwb_dispatch (rep all_points run))
+                (in_map pwb_dispatch _ _ (rep_in all_points run))) as G.
+  rewrite E in G. exact G.
 Qed.
 
 Lemma In_pad_domain t b a ch :
@@ -269,14 +319,6 @@ Proof.
     reflexivity.
 Qed.
 
-Definition wire_first_threshold : N :=
-  match first_threshold preamp_arms, first_threshold channel_arms with
-  | Some a, Some b => N.max a b
-  | _, _ => 0
-  end.
-Definition pad_first_threshold : N :=
-  match first_threshold pwb_arms with Some a => a | None => 0 end.
-
 Definition is_none {A} (o : option A) : bool := match o with None => true | Some _ => false end.
 
 Lemma early_none {A} (d : N -> option A) thr :
@@ -288,7 +330,7 @@ Proof.
   specialize (F _ (rep_in all_points run)). cbv beta in F.
   pose proof (rep_le all_points run) as LE.
   assert (rep all_points run <> sim_run) as NE'.
-  { intro E. apply NE. eapply rep_eq_point; [|exact E]. unfold all_points. right; left; reflexivity. }
+  { apply rep_not_sim. exact NE. }
   replace (rep all_points run <? thr) with true in F by (symmetry; apply N.ltb_lt; lia).
   replace (rep all_points run =? sim_run) with false in F by (symmetry; apply N.eqb_neq; exact NE').
   cbn [andb negb] in F. destruct (d (rep all_points run)); [cbn in F; discriminate|reflexivity].
@@ -299,9 +341,9 @@ Theorem early_runs_error_lemma : forall run, run <> sim_run ->
   /\ (run < pad_first_threshold -> forall b a ch, exists k, pad_position run b a ch = Err k).
 Proof.
   assert (forallb (fun q => if (q <? wire_first_threshold) && negb (q =? sim_run) then is_none (wire_dispatch q) else true)
-                  probe_runs = true) as FW by (vm_compute; reflexivity).
+                  probe_runs = true) as FW by (vm_cast_no_check (eq_refl true)).
   assert (forallb (fun q => if (q <? pad_first_threshold) && negb (q =? sim_run) then is_none (pwb_dispatch q) else true)
-                  probe_runs = true) as FP by (vm_compute; reflexivity).
+                  probe_runs = true) as FP by (vm_cast_no_check (eq_refl true)).
   intros run NE. split; intros L **.
   - unfold wire_position. rewrite (early_none wire_dispatch wire_first_threshold wire_dispatch_rep FW run L NE).
     cbn. eauto.
@@ -315,7 +357,7 @@ Theorem no_catch_all_guess_lemma : forall arms, In arms [preamp_arms; channel_ar
   forall b, In (PAny, b) arms -> b = None.
 Proof.
   assert (forallb (fun arms => forallb (fun a => match a with (PAny, Some _) => false | _ => true end) arms)
-                  [preamp_arms; channel_arms; pwb_arms] = true) as F by (vm_compute; reflexivity).
+                  [preamp_arms; channel_arms; pwb_arms] = true) as F by (vm_cast_no_check (eq_refl true)).
   intros arms I b Hb. rewrite forallb_forall in F. specialize (F _ I). rewrite forallb_forall in F.
   specialize (F _ Hb). cbn in F. destruct b; [discriminate|reflexivity].
 Qed.
@@ -328,7 +370,7 @@ Theorem column_geometry_lemma : forall w, w < gen_TPC_ANODE_WIRES ->
   /\ wire_phi_num w * gen_TPC_PAD_COLUMNS < (2 * c + 2) * gen_TPC_ANODE_WIRES.
 Proof.
   assert (forallb (fun w => (wire_to_pad_column w <? gen_TPC_PAD_COLUMNS) && wire_in_column w (wire_to_pad_column w))
-                  (rangeN gen_TPC_ANODE_WIRES) = true) as F by (vm_compute; reflexivity).
+                  (rangeN gen_TPC_ANODE_WIRES) = true) as F by (vm_cast_no_check (eq_refl true)).
   intros w Hw c. rewrite forallb_forall in F. specialize (F w (proj2 (In_rangeN _ _) Hw)).
   apply andb_true_iff in F as [F1 F2]. unfold wire_in_column in F2. apply andb_true_iff in F2 as [F2 F3].
   apply N.ltb_lt in F1. apply N.leb_le in F2. apply N.ltb_lt in F3. auto.
@@ -341,7 +383,7 @@ Proof.
   assert (forallb (fun c => (pad_column_first c + gen_WIRES_PER_COLUMN <=? gen_TPC_ANODE_WIRES)
             && forallb (fun w => Bool.eqb (existsb (N.eqb w) (pad_column_to_wires c)) (wire_to_pad_column w =? c))
                        (rangeN gen_TPC_ANODE_WIRES)) (rangeN gen_TPC_PAD_COLUMNS) = true) as F
-    by (vm_compute; reflexivity).
+    by (vm_cast_no_check (eq_refl true)).
   intros c Hc. rewrite forallb_forall in F. specialize (F c (proj2 (In_rangeN _ _) Hc)).
   apply andb_true_iff in F as [F1 F2]. apply N.leb_le in F1. split; [exact F1|].
   intros w Hw. rewrite forallb_forall in F2. specialize (F2 w (proj2 (In_rangeN _ _) Hw)).
@@ -391,3 +433,49 @@ Theorem every_table_used_lemma :
   /\ (forall t, t < lenN channel_tables -> exists run, dispatch channel_arms run = Some t)
   /\ (forall t, t < lenN pwb_tables -> exists run, pwb_dispatch run = Some t).
 Proof. repeat split; apply used_spec; vm_compute; reflexivity. Qed.
+
+(* ---- the observations printed by the model runner are the ones the property requires ------------------- *)
+Definition obs_eqb (a b : N * N * bool) : bool :=
+  (fst (fst a) =? fst (fst b)) && (snd (fst a) =? snd (fst b)) && Bool.eqb (snd a) (snd b).
+Lemma obs_eqb_eq a b : obs_eqb a b = true -> a = b.
+Proof.
+  destruct a as [[a1 a2] a3], b as [[b1 b2] b3]. unfold obs_eqb. cbn [fst snd].
+  rewrite !andb_true_iff. intros [[H1 H2] H3]. apply N.eqb_eq in H1, H2. apply Bool.eqb_prop in H3. congruence.
+Qed.
+
+Theorem required_is_actual_lemma : forall run,
+  wire_dispatch_req run = wire_dispatch run /\ pwb_dispatch_req run = pwb_dispatch run
+  /\ wire_table_obs_req (wire_dispatch run) = wire_table_obs (wire_dispatch run)
+  /\ pad_table_obs_req (pwb_dispatch run) = pad_table_obs (pwb_dispatch run).
+Proof.
+  assert (forallb (fun q => (q =? sim_run) || optNN_eqb (wire_dispatch_req q) (wire_dispatch q)) probe_runs = true)
+    as FW by (vm_cast_no_check (eq_refl true)).
+  assert (forallb (fun q => (q =? sim_run) || optN_eqb (pwb_dispatch_req q) (pwb_dispatch q)) probe_runs = true)
+    as FP by (vm_cast_no_check (eq_refl true)).
+  assert (forallb (fun d => let t := wire_table d in
+                            obs_eqb (table_obs_req gen_TPC_ANODE_WIRES t) (table_obs gen_TPC_ANODE_WIRES t))
+                  (dedup optNN_eqb (map wire_dispatch probe_runs)) = true) as OW by (vm_cast_no_check (eq_refl true)).
+  assert (forallb (fun d => let t := pad_table d in obs_eqb (table_obs_req gen_TPC_PADS t) (table_obs gen_TPC_PADS t))
+                  (dedup optN_eqb (map pwb_dispatch probe_runs)) = true) as OP by (vm_cast_no_check (eq_refl true)).
+  intro run. repeat split.
+  - destruct (N.eq_dec run sim_run) as [->|NE]; [vm_compute; reflexivity|].
+    rewrite (wire_req_rep run NE), (wire_dispatch_rep run).
+    rewrite forallb_forall in FW. specialize (FW _ (rep_in all_points run)). cbv beta in FW.
+    replace (rep all_points run =? sim_run) with false in FW
+      by (symmetry; apply N.eqb_neq; apply rep_not_sim; exact NE).
+    apply optNN_eqb_eq. exact FW.
+  - destruct (N.eq_dec run sim_run) as [->|NE]; [vm_compute; reflexivity|].
+    rewrite (pwb_req_rep run NE), (pwb_dispatch_rep run).
+    rewrite forallb_forall in FP. specialize (FP _ (rep_in all_points run)). cbv beta in FP.
+    replace (rep all_points run =? sim_run) with false in FP
+      by (symmetry; apply N.eqb_neq; apply rep_not_sim; exact NE).
+    apply optN_eqb_eq. exact FP.
+  - apply obs_eqb_eq.
+    apply (forallb_dedup optNN_eqb (fun d => let t := wire_table d in
+             obs_eqb (table_obs_req gen_TPC_ANODE_WIRES t) (table_obs gen_TPC_ANODE_WIRES t)) _ optNN_eqb_eq OW).
+    rewrite wire_dispatch_rep. apply in_map. apply rep_in.
+  - apply obs_eqb_eq.
+    apply (forallb_dedup optN_eqb (fun d => let t := pad_table d in
+             obs_eqb (table_obs_req gen_TPC_PADS t) (table_obs gen_TPC_PADS t)) _ optN_eqb_eq OP).
+    rewrite pwb_dispatch_rep. apply in_map. apply rep_in.
+Qed.
